@@ -42,6 +42,8 @@ def _strip_mv(e: ast.AST) -> ast.AST:
 def run(ch: Checker) -> None:
     prog = ch.prog
     ce = ConstEval(prog)
+    ch.rule('C01.16', 'client-to-upstream bytes already accepted are delivered: when HttpProtocolHandler.handle_events signals teardown because reading from the client ended (reads_teared), the path '
+                      'has established that nothing is queued for the upstream either -- not only that the client buffer is empty', 1)
     ch.rule('C01.15', 'the relay does not depend on the bookkeeping parse: in read_from_descriptors, once a response segment is handed to the response parser(s), self.client.queue(raw) is attempted '
                       'on every way on, also when parsing raises (a close-delimited body, a tunnel payload or anything else that is not a well-formed response must still reach the client)', 1)
     ch.rule('C01.1', 'TcpConnection.queue: the only effect on self.buffer is append(<parameter>) and _num_buffer is incremented by 1 on the same path', 1)
@@ -409,6 +411,29 @@ def run(ch: Checker) -> None:
              'a response segment is handed to the response parser and, when that raises, never queued for the client (%s): the close-delimited body of a response whose header block arrived '
              'in a segment of its own is parsed as a new response, raises IndexError and is lost together with the connection' % (cex15[0] if cex15 else 'no parsing path'),
              witness=cex15[1] if cex15 else None)
+
+    # ---------------- C01.16 teardown after client EOF vs. bytes still queued for the upstream
+    he16 = prog.own_method('HttpProtocolHandler', 'handle_events')
+    g16 = cfg_of(he16, prog, exc_edges=False)
+    n16 = 0
+    bad16 = None
+    for p in fpaths(g16):
+        ch.paths += 1
+        if p.exit_kind != 'return' or p.coarse:
+            continue
+        last_i, last = p.stmts()[-1]
+        if not (isinstance(last, ast.Return) and last.value is not None and norm(Sym(p).value(last.value, last_i)) == 'True'):
+            continue
+        fd = allfacts(p, last_i)
+        if fd.get('self.reads_teared') is not True:
+            continue
+        n16 += 1
+        upstream_checked = any(('upstream' in k and 'has_buffer' in k and v is False) or ('has_pending' in k and v is False) or ('upstream' in k and 'buffer' in k and v is False) for k, v in fd.items())
+        if not upstream_checked:
+            bad16 = ('handle_events signals teardown once reading from the client has ended and the CLIENT buffer is empty, without regard to what is still queued for the upstream: a tunnel client '
+                     'that sends its data and half-closes (or closes) while the upstream is reading more slowly loses the unsent tail -- the upstream socket is closed with its buffer full', p.describe(20))
+    ch.check(bad16 is None and n16 > 0, 'C01.16', he16, 'teardown after client EOF waits for the upstream buffer', 'teardown after client EOF only with nothing queued for the upstream (%d path(s))' % n16,
+             bad16[0] if bad16 else 'no teardown path after client EOF found', witness=bad16[1] if bad16 else None)
 
     # ---------------- C01.12 keep reading while data arrives
     rfd = prog.own_method('HttpProxyPlugin', 'read_from_descriptors')
